@@ -56,9 +56,22 @@ Proof.
 Qed.
 Lemma zsum_app a b : zsum (a ++ b) = zsum a + zsum b.
 Proof. unfold zsum. induction a as [|x a IH]; cbn [app fold_right]; lia. Qed.
+Lemma zsum_cons x l : zsum (x :: l) = x + zsum l.
+Proof. reflexivity. Qed.
+Lemma zsum_nil : zsum [] = 0.
+Proof. reflexivity. Qed.
 
 Lemma eqb_nat_true (a b : nat) : (a =? b)%nat = true -> a = b.
 Proof. apply Nat.eqb_eq. Qed.
+
+(* closed conjunctions of computations (split only on /\, never on =) *)
+Ltac vm_conj := intros; repeat match goal with |- _ /\ _ => split end; vm_compute; reflexivity.
+
+(* split H : a && b && ... = true into its conjuncts *)
+Ltac andb_split H :=
+  repeat match type of H with
+         | (_ && _ = true) => let H' := fresh H in apply andb_prop in H; destruct H as [H H']
+         end.
 
 (* ---- validation entry ---- *)
 Lemma val_layout v : map (@length Z) (val_fields v) = widths fmt_et_validation_widths.
@@ -78,11 +91,8 @@ Theorem val_roundtrip v : val_ok v = true ->
   val_record v = Some (val_bytes v) /\ length (val_bytes v) = 32%nat /\
   val_parse (val_bytes v) = Some v.
 Proof.
-  unfold val_ok. intros H.
-  assert (Hp : platform_ok (v_platform_id v) = true) by lia.
-  assert (Hl : length (v_id_string v) = 24%nat) by (apply eqb_nat_true; lia).
-  assert (Hc : u16_ok (v_checksum v) = true) by lia.
-  assert (Hs : (et_checksum (val_bytes v) =? 0) = true) by lia.
+  unfold val_ok. intros H. andb_split H.
+  rename H into Hp, H3 into Hl, H2 into Hi, H1 into Hc, H0 into Hs. apply eqb_nat_true in Hl.
   split; [|split; [apply val_bytes_length|]].
   - unfold val_record. rewrite (platform_ok_u8 _ Hp), Hc. reflexivity.
   - unfold val_parse. rewrite val_split, Hs. unfold val_fields. cbv beta iota. unfold d8. cbn [nth].
@@ -103,20 +113,21 @@ Proof.
   set (ids := pack_s 24 (v_id_string v)).
   replace (concat [[1]; [v_platform_id v]; le16 0; ids; le16 (v_checksum v); [85]; [170]])
     with (([1; v_platform_id v; 0; 0] ++ ids) ++ (le16 (v_checksum v) ++ [85; 170])).
-  2:{ cbn [concat app le16]. rewrite <- !app_assoc. reflexivity. }
+  2:{ cbn [concat app le16]. reflexivity. }
   rewrite words16_app_even.
   2:{ rewrite app_length. unfold ids. rewrite pack_s_length. reflexivity. }
-  rewrite zsum_app. cbn [app words16 le16]. unfold zsum at 1 3. cbn [fold_right].
-  fold (zsum (words16 ids)). unfold u16_ok in Hc. lia.
+  rewrite zsum_app. cbn [app words16 le16]. rewrite !zsum_cons, zsum_nil.
+  unfold u16_ok in Hc. lia.
 Qed.
 
 Lemma val_bytes_cbytes v : u8_ok (v_platform_id v) = true -> Checksums.bytes (v_id_string v) ->
   Checksums.bytes (val_bytes v).
 Proof.
   intros Hp Hi. unfold val_bytes, val_fields. cbn [concat].
-  repeat apply cbytes_app; try (apply cbytes_pack_s; exact Hi);
-    unfold Checksums.bytes, le16;
-    repeat (apply Forall_cons; [unfold u8_ok in Hp; lia|]); apply Forall_nil.
+  pose proof (cbytes_pack_s 24 _ Hi) as Hk. remember (pack_s 24 (v_id_string v)) as k eqn:Ek.
+  clear Ek. unfold u8_ok in Hp.
+  repeat apply cbytes_app; try exact Hk; unfold Checksums.bytes, le16;
+    repeat (apply Forall_cons; [lia|]); apply Forall_nil.
 Qed.
 
 (* _checksum of a recorded validation entry: minus (constant part + checksum field), 16 bits *)
@@ -186,11 +197,9 @@ Theorem val_parse_rejects_altered_checksum v c' : val_ok v = true ->
   u16_ok c' = true -> c' <> v_checksum v ->
   val_parse (val_bytes (mk_val (v_platform_id v) (v_id_string v) c')) = None.
 Proof.
-  unfold val_ok. intros H Hc' Hne.
-  assert (Hu : u8_ok (v_platform_id v) = true) by (apply platform_ok_u8; lia).
-  assert (Hi : bytes_ok (v_id_string v) = true) by lia.
-  assert (Hc : u16_ok (v_checksum v) = true) by lia.
-  assert (Hs : et_checksum (val_bytes v) = 0) by lia.
+  unfold val_ok. intros H Hc' Hne. andb_split H.
+  rename H into Hu, H2 into Hi, H1 into Hc, H0 into Hs. apply platform_ok_u8 in Hu.
+  apply Z.eqb_eq in Hs.
   rewrite (val_checksum_char v Hu Hi Hc) in Hs.
   destruct (val_parse _) as [w|] eqn:E; [|reflexivity].
   apply val_parse_checksum in E. rewrite val_checksum_char in E by (cbn [v_platform_id v_id_string v_checksum]; auto).
@@ -216,7 +225,7 @@ Proof.
   destruct (z29 =? 85) eqn:E2; cbn [negb]; [|split; [congruence|lia]].
   destruct (z30 =? 170) eqn:E3; cbn [negb]; [|split; [congruence|lia]].
   destruct (cs =? 0) eqn:E4; cbn [negb].
-  - split; [intros _|discriminate]. repeat split; try lia. apply Hiff. reflexivity.
+  - split; [intros _|discriminate]. repeat split; lia.
   - split; [congruence|]. intros (_ & _ & _ & _ & H). apply Hiff in H. discriminate H.
 Qed.
 
@@ -229,8 +238,21 @@ Lemma entry_split e :
   split_widths (widths fmt_et_entry_widths) (entry_bytes e) = Some (entry_fields e, []).
 Proof. unfold entry_bytes. rewrite <- (entry_layout e). apply split_concat_nil. Qed.
 
+Lemma entry_ok_inv e : entry_ok e = true ->
+  (e_boot_indicator e = 136 \/ e_boot_indicator e = 0) /\ 0 <= e_boot_media_type e <= 4 /\
+  u16 (e_load_segment e) /\ byte (e_system_type e) /\ u16 (e_sector_count e) /\
+  u32 (e_load_rba e) /\ byte (e_sel_type e) /\ length (e_sel_crit e) = 19%nat /\
+  bytes_ok (e_sel_crit e) = true.
+Proof.
+  unfold entry_ok. intros H. andb_split H. apply eqb_nat_true in H1.
+  unfold u8_ok, u16_ok, u32_ok in *. unfold u16, u32, byte.
+  repeat split; try assumption; lia.
+Qed.
 Lemma entry_ok_ranges e : entry_ok e = true -> entry_ranges_ok e = true.
-Proof. unfold entry_ok, entry_ranges_ok, u8_ok. lia. Qed.
+Proof.
+  intros H. apply entry_ok_inv in H. destruct H as (H1 & H2 & H3 & H4 & H5 & H6 & H7 & _).
+  unfold entry_ranges_ok, u8_ok, u16_ok, u32_ok. unfold u16, u32, byte in *. lia.
+Qed.
 
 Theorem entry_roundtrip e : entry_ok e = true ->
   entry_record e = Some (entry_bytes e) /\ length (entry_bytes e) = 32%nat /\
@@ -238,14 +260,12 @@ Theorem entry_roundtrip e : entry_ok e = true ->
 Proof.
   intros H. split; [|split; [apply entry_bytes_length|]].
   - unfold entry_record. rewrite (entry_ok_ranges e H). reflexivity.
-  - unfold entry_ok in H.
-    assert (Hl : length (e_sel_crit e) = 19%nat) by (apply eqb_nat_true; lia).
+  - apply entry_ok_inv in H. destruct H as (H1 & H2 & H3 & H4 & H5 & H6 & H7 & Hl & _).
     unfold entry_parse. rewrite entry_split. unfold entry_fields. cbv beta iota. unfold d8. cbn [nth].
     replace ((e_boot_indicator e =? 136) || (e_boot_indicator e =? 0)) with true by lia.
     replace (e_boot_media_type e >? 4) with false by lia.
     change (0 =? 0) with true. cbn [negb].
-    rewrite !le16_dle16 by (unfold u16_ok in H; unfold u16; lia).
-    rewrite le32_dle32 by (unfold u32_ok in H; unfold u32; lia).
+    rewrite !le16_dle16 by assumption. rewrite le32_dle32 by assumption.
     rewrite pack_s_exact by exact Hl. destruct e; reflexivity.
 Qed.
 
@@ -272,13 +292,20 @@ Theorem entry_new_ok sc ls m st b e : entry_new sc ls m st b = Some e ->
   new_args_ok sc ls m st = true ->
   entry_ok e = true /\ e_boot_indicator e = (if b then 136 else 0) /\ e_load_rba e = 0.
 Proof.
-  rewrite entry_new_spec. unfold new_args_ok. intros H Ha.
-  destruct m; [| |destruct (_ || _) in H| |]; try discriminate H;
-    apply some_inv in H; subst e; unfold entry_ok; cbn [e_boot_indicator e_boot_media_type
-      e_load_segment e_system_type e_sector_count e_load_rba e_sel_type e_sel_crit];
-    rewrite bytes_ok_repeat0, repeat_length; unfold u8_ok, u16_ok, u32_ok in *;
-    (split; [|split; [reflexivity|reflexivity]]); destruct b; try destruct (sc =? 2400);
-    try destruct (sc =? 2880); lia.
+  rewrite entry_new_spec. unfold new_args_ok. intros H Ha. andb_split Ha.
+  assert (Hgen : forall mt s, 0 <= mt <= 4 -> u16_ok s = true ->
+            entry_ok (mk_entry (if b then 136 else 0) mt ls st s 0 0 (repeat 0 19)) = true).
+  { intros mt s Hmt Hs. unfold entry_ok.
+    cbn [e_boot_indicator e_boot_media_type e_load_segment e_system_type e_sector_count e_load_rba
+         e_sel_type e_sel_crit].
+    rewrite bytes_ok_repeat0, repeat_length. cbn [Nat.eqb].
+    unfold u8_ok, u16_ok, u32_ok in *. destruct b; lia. }
+  destruct m.
+  - apply some_inv in H; subst e. split; [apply Hgen; [lia|exact Ha0]|split; reflexivity].
+  - destruct (_ || _); [|discriminate H]. apply some_inv in H; subst e.
+    split; [apply Hgen; [destruct (sc =? 2400); [|destruct (sc =? 2880)]; lia|reflexivity]|split; reflexivity].
+  - apply some_inv in H; subst e. split; [apply Hgen; [lia|reflexivity]|split; reflexivity].
+  - discriminate H.
 Qed.
 
 (* new() does not check what struct.pack will refuse: a 'noemul' entry of more than 65535 sectors
@@ -329,12 +356,11 @@ Theorem header_roundtrip h : header_ok h = true ->
   header_parse (firstn 32 (header_bytes h)) = Some h0 /\ header_parse (header_bytes h) = Some h0 /\
   (forallb entry_ranges_ok (h_entries h) = true -> header_record h = Some (header_bytes h)).
 Proof.
-  unfold header_ok. intros H h0.
-  assert (Hl : length (h_id_string h) = 28%nat) by (apply eqb_nat_true; lia).
+  intros H h0. unfold header_ok in H. andb_split H. apply eqb_nat_true in H1. rename H1 into Hl.
   assert (Hp : forall t, header_parse (concat (header_fields h) ++ t) = Some h0).
   { intros t. unfold header_parse. rewrite <- (header_layout h), split_concat.
     unfold header_fields. cbv beta iota. unfold d8. cbn [nth].
-    rewrite le16_dle16 by (unfold u16_ok in H; unfold u16; lia).
+    rewrite le16_dle16 by (unfold u16_ok in H2; unfold u16; lia).
     rewrite pack_s_exact by exact Hl. reflexivity. }
   split; [|split].
   - unfold header_bytes. rewrite (firstn_app_exact 32) by apply header_fields_length.
@@ -342,7 +368,7 @@ Proof.
   - apply Hp.
   - intros He. unfold header_record, header_ranges_ok. rewrite He.
     replace (u8_ok (h_indicator h) && u8_ok (h_platform_id h) && u16_ok (h_num_entries h)) with true
-      by (unfold u8_ok; lia). reflexivity.
+      by (unfold u8_ok, u16_ok in *; lia). reflexivity.
 Qed.
 
 (* ---- real objects (PyCdlib().new(); add_fp(b'boot\n', '/BOOT.;1'); add_eltorito('/BOOT.;1')) ---- *)
@@ -357,7 +383,7 @@ Example real_validation :
   check_validation_case 0 (repeat 0 24) real_val_bytes = true /\
   check_validation_case 3 (repeat 0 24) [] = true /\
   et_word_sum real_val_bytes mod 65536 = 0.
-Proof. repeat split; vm_compute; reflexivity. Qed.
+Proof. vm_conj. Qed.
 (* initial entry after write(): new(4, 0, 'noemul', 0, True); set_data_location(26, 0) *)
 Example real_initial_entry :
   entry_new (default_sector_count 5) 0 MNoemul 0 true = Some (mk_entry 136 0 0 0 4 0 0 (repeat 0 19)) /\
@@ -366,7 +392,7 @@ Example real_initial_entry :
   check_entry_case (136, 0, 0, 0, 4, 26, 0, repeat 0 19) real_init_bytes = true /\
   check_entry_new_case 4 0 0 0 true 26 real_init_bytes = true /\
   check_entry_dec_case real_init_bytes real_init_bytes = true.
-Proof. repeat split; vm_compute; reflexivity. Qed.
+Proof. vm_conj. Qed.
 (* third boot image: add_eltorito('/THIRD.;1', boot_load_seg=0x7c0) of a 3000-byte file *)
 Example real_section :
   let e := (136, 0, 1984, 0, 8, 28, 0, repeat 0 19) in
@@ -376,7 +402,7 @@ Example real_section :
   bad_entry_cases 0 [ (e, [136; 0; 192; 7; 0; 0; 8; 0; 28; 0; 0; 0] ++ repeat 0 20);
                       (e, [136; 0; 192; 7; 0; 0; 9; 0; 28; 0; 0; 0] ++ repeat 0 20);
                       ((136, 0, 65536, 0, 8, 28, 0, repeat 0 19), []) ] = [1%nat].
-Proof. repeat split; vm_compute; reflexivity. Qed.
+Proof. vm_conj. Qed.
 
 Print Assumptions val_roundtrip.
 Print Assumptions val_new_word_sum.
